@@ -82,6 +82,10 @@ def corpus(tier):
                'def outer():\n    q = 5\n' + ''.join('    ' + l + '\n' for l in (decs + 'class C%s:\n    w = v(3)\n    def m(self):\n        return q, __class__' % (('(' + hdr + ')') if hdr else '')).split('\n') if l) +
                '    return C().m()[0]\nprint(outer())\n')
         cases.append({'id': 'clsfx:%d' % k2, 'src': src, 'verify': True, 'feature': 'definition-forms'})
+    # every statement and expression form of the grammar (C06's generator), run against a prelude that binds every name to a universal object
+    import g6corpus
+    for c in g6corpus.programs(r, 700 if tier == 'quick' else 12000):
+        cases.append({'id': c['id'], 'src': c['src'], 'verify': True, 'feature': 'full-grammar'})
     # hand-written block-structure stressors: every exit kind through finally/with/loops, nested
     for i, src in enumerate(STRESS):
         cases.append({'id': 'stress:%d' % i, 'src': src, 'verify': True, 'feature': 'stress'})
@@ -236,7 +240,11 @@ def run(tier, rep):
             for i, c in enumerate(got[:6000]):
                 cases.append({'id': '%s:%d' % (modname, i), 'src': c['src'], 'verify': True, 'feature': modname})
     feat = {c['id']: c.pop('feature') for c in cases}
-    res, _ = common.run_vrun('exec', cases, timeout_case=60)
+    fg = [c for c in cases if c['id'].startswith('g6:')]
+    res, _ = common.run_vrun('exec', [c for c in cases if not c['id'].startswith('g6:')], timeout_case=60)
+    # full-grammar programs may loop for ever on a literal condition: short watchdog, a timeout is inconclusive
+    res_fg, _ = common.run_vrun('exec', fg, timeout_case=8)
+    res.update(res_fg)
     tot = {'codes': 0, 'instrs': 0, 'states': 0, 'dyn_instrs': 0, 'dyn_sites': 0, 'dyn_pairs': 0, 'overflow': 0, 'compile_rejected': 0, 'maxdepth': 0, 'maxblock': 0, 'lazy': 0}
     opcodes = set()
     nontriv = set()
@@ -280,7 +288,7 @@ def run(tier, rep):
             samples.append({'id': c['id'], 'source_excerpt': c['src'][len(progen.PRELUDE):][:600], 'verifier': vs, 'dynamic': {k: v for k, v in ds.items() if k != 'opcodes'}})
     rep.nontrivial = nontriv
     rep.samples = samples or [{'id': cases[0]['id']}]
-    rep.rule = ('corpus = every .py file under the repository + seeded structurally rich generated programs (nested loops/try/finally/with/generators/closures/comprehensions, every exit kind, '
+    rep.rule = ('corpus = every .py file under the repository + full-grammar modules of the C06 generator run over a universal object + definition forms (decorators x defaults x keyword-only defaults x annotations x closure x */** x lambda x 4 contexts) + seeded structurally rich generated programs (nested loops/try/finally/with/generators/closures/comprehensions, every exit kind, '
                 'driven down several data-dependent paths) + hand-written block stressors; every emitted code object (recursively) is verified statically on ALL paths and every executed instruction is checked dynamically; '
                 'non-trivial = program whose verifier explored more states than instructions (several abstract states per pc: finally/with bodies) or that executed with block depth >= 2')
     rep.extra = dict(tot, opcodes_executed=len(opcodes), opcode_names=sorted(opcodes))
